@@ -1,4 +1,4 @@
-use easy_error::{Error, ResultExt};
+use easy_error::{ensure, Error, ResultExt};
 use serde::{Deserialize, Serialize};
 
 use crate::access_log::AccessLog;
@@ -30,6 +30,8 @@ pub struct IoParams {
     pub use_splice: bool,
 }
 
+const MAX_BUFFER_SIZE: usize = 64 * 1024 * 1024;
+
 impl Default for IoParams {
     fn default() -> Self {
         Self {
@@ -43,7 +45,15 @@ impl Config {
     pub async fn load(path: &str) -> Result<Self, Error> {
         let s = tokio::fs::read(path).await.context("read file")?;
         let s = String::from_utf8(s).context("parse utf8")?;
-        serde_yaml::from_str(&s).context("parse yaml")
+        let cfg: Self = serde_yaml::from_str(&s).context("parse yaml")?;
+        // every tunnel allocates two buffers of this size: an absurd value must fail here, not there
+        ensure!(
+            cfg.io_params.buffer_size <= MAX_BUFFER_SIZE,
+            "ioParams.bufferSize must not exceed {}: {}",
+            MAX_BUFFER_SIZE,
+            cfg.io_params.buffer_size
+        );
+        Ok(cfg)
     }
 }
 
